@@ -205,10 +205,20 @@ def gen_adupdates(r, exact, opaque=False):
             gks.append(G.name)
     stepsize = sl.pick_step(r, exact)
     inner = [sl.pick_step(r, exact) for _ in range(m)]
+    rand_order, npseed = False, 0
+    if opaque:
+        # implementation-vs-implementation only: pointwise inner step sizes (documented for
+        # L1Norm / L2NormSquared) and random order with numpy seeded identically for both
+        for i in range(m):
+            if gks[i] in ('l1', 'l2sq') and r.random() < 0.5:
+                inner[i] = Ls[i].range.element(np.abs(sl.dy_vec(r, size_of(Ls[i].range), 8, 8)) + 0.125)
+        rand_order = r.random() < 0.4
+        npseed = r.randint(0, 2 ** 31 - 1)
     x0 = sl.dy_vec(r, d, 16, 8)
     return dict(solver='adupdates', opkind='x'.join(str(size_of(L.range)) for L in Ls), Ls=Ls,
-                Gs=Gs, gk='+'.join(gks), fk='-', m=m, stepsize=stepsize, inner=inner, x0=x0,
-                cb=r.choice(['inner', 'outer']))
+                Gs=Gs, gk='+'.join(gks), fk='random' if rand_order else '-', m=m, stepsize=stepsize,
+                inner=inner, x0=x0, cb=r.choice(['inner', 'outer']), rand_order=rand_order,
+                npseed=npseed)
 
 
 def impl_adupdates(p, variant, n, cb='outer'):
@@ -216,11 +226,14 @@ def impl_adupdates(p, variant, n, cb='outer'):
     x = unflat(p['Ls'][0].domain, p['x0'])
     g = [G if not hasattr(G, 'f') else G.f for G in p['Gs']]
     rec = Recorder()
+    np.random.seed(p.get('npseed', 0))
+    ro = bool(p.get('rand_order'))
     if variant == 'opt':
         st, _ = guarded(adupdates, x, g, p['Ls'], p['stepsize'], list(p['inner']), n,
-                        callback=rec, callback_loop=cb)
+                        callback=rec, callback_loop=cb, random=ro)
     else:
-        st, _ = guarded(adupdates_simple, x, g, p['Ls'], p['stepsize'], list(p['inner']), n)
+        st, _ = guarded(adupdates_simple, x, g, p['Ls'], p['stepsize'], list(p['inner']), n,
+                        random=ro)
     return st, rec.iterates, flat(x).copy()
 
 
